@@ -245,6 +245,28 @@ pub fn gen_c15(tier: Tier, seed: u64, em: &mut Emitter) {
             }
         }
     }
+    // polling scanner: both channels selected, then every sequence of depth 5 (thorough 6) over
+    // {value bytes, polls and number bytes on either channel, a time step at the timeout}
+    for &(c1, c2) in &[(0i64, 1i64), (15, 3), (7, 8)] {
+        let timeout = 5;
+        let syms: Vec<Vec<i64>> = vec![
+            vec![0, 176 + c1, 6, 5], vec![0, 176 + c2, 6, 7], vec![0, 176 + c1, 38, 6],
+            vec![0, 176 + c2, 99, 3], vec![3, c1, 0, 0], vec![3, c2, 0, 0], vec![4, 5, 0, 0],
+            vec![0, 176 + c2, 96, 8],
+        ];
+        let prefix = vec![0, 176 + c1, 99, 1, 0, 176 + c1, 98, 2, 0, 176 + c2, 101, 1, 0, 176 + c2, 100, 2];
+        let depth = if tier == Tier::Thorough { 6 } else { 5 };
+        let total = (syms.len() as u64).pow(depth);
+        for mut i in 0..total {
+            let mut inp = vec![2, timeout, 2, c1, c2, 0];
+            inp.extend_from_slice(&prefix);
+            for _ in 0..depth {
+                inp.extend_from_slice(&syms[(i % syms.len() as u64) as usize]);
+                i /= syms.len() as u64;
+            }
+            em.emit_k("polling-two-channels-exhaustive", 150, inp);
+        }
+    }
     // seeded random interleavings of up to 16 channels over the full alphabet
     let n = if tier == Tier::Thorough { 150_000 } else { 6_000 };
     for _ in 0..n {
